@@ -3,8 +3,25 @@ use digest::generic_array::typenum::{U1, U128, U129, U20, U200, U32, U33, U64, U
 use digest::generic_array::GenericArray;
 use digest::{BlockInput, Digest, FixedOutput, FixedOutputDirty, Reset, Update};
 
+/// An argument for `update(impl AsRef<[u8]>)` whose `as_ref()` is not idempotent: every call hands out the next of
+/// several views of a growing buffer (the last one again after that). A hasher may absorb any ONE of the views it
+/// was handed - but all of it, and count exactly that.
+pub struct Views<'a> {
+    pub views: &'a [&'a [u8]],
+    pub calls: std::cell::Cell<usize>,
+}
+impl<'a> AsRef<[u8]> for Views<'a> {
+    fn as_ref(&self) -> &[u8] {
+        let i = self.calls.get();
+        self.calls.set(i + 1);
+        self.views[i.min(self.views.len() - 1)]
+    }
+}
+
 pub trait HashObj: Send {
     fn update(&mut self, data: &[u8]);
+    /// update / chain with a `Views` argument; returns how many times as_ref() was called
+    fn update_views(&mut self, views: &[&[u8]]) -> usize;
     fn chain_box(self: Box<Self>, data: &[u8]) -> Box<dyn HashObj>;
     fn finalize_box(self: Box<Self>) -> Vec<u8>;
     /// Digest::finalize_reset (clone + finalize + reset)
@@ -38,6 +55,11 @@ impl<D> HashObj for D
 where
     D: Digest + Update + FixedOutput + FixedOutputDirty<OutputSize = <D as FixedOutput>::OutputSize> + Reset + BlockInput + Clone + Default + Counter + Send + 'static,
 {
+    fn update_views(&mut self, views: &[&[u8]]) -> usize {
+        let v = Views { views, calls: std::cell::Cell::new(0) };
+        Digest::update(self, &v);
+        v.calls.get()
+    }
     fn finalize_into_reset_at(&mut self, out: &mut [u8]) {
         FixedOutput::finalize_into_reset(self, GenericArray::from_mut_slice(out))
     }
